@@ -67,6 +67,7 @@ func c02Read(rm *metricdata.ResourceMetrics) (pts []c02Point, monotonic bool, te
 }
 
 type c02Exp struct {
+	cum   bool // the periodic reader's exporter asks for cumulative temporality
 	x     *sched.Exec
 	colls [][]c02Point
 	sd    int
@@ -75,6 +76,9 @@ type c02Exp struct {
 }
 
 func (e *c02Exp) Temporality(InstrumentKind) metricdata.Temporality {
+	if e.cum {
+		return metricdata.CumulativeTemporality
+	}
 	return metricdata.DeltaTemporality
 }
 func (e *c02Exp) Aggregation(k InstrumentKind) Aggregation { return DefaultAggregationSelector(k) }
@@ -97,6 +101,7 @@ type c02Scn struct {
 	collects  [][]string // collector threads: ops "D" collect delta, "C" collect cumulative, "F" periodic ForceFlush
 	periodic  bool
 	twoScopes bool // attribute set B is recorded on the same-named instrument of a second meter (scope)
+	cumExport bool // the periodic reader exports cumulative values: what the exporter holds last is the total, and it never goes down
 }
 
 func c02Body(sc c02Scn, res *string) func(x *sched.Exec) {
@@ -104,7 +109,7 @@ func c02Body(sc c02Scn, res *string) func(x *sched.Exec) {
 		ctx := context.Background()
 		delta := NewManualReader(WithTemporalitySelector(func(InstrumentKind) metricdata.Temporality { return metricdata.DeltaTemporality }))
 		cum := NewManualReader()
-		exp := &c02Exp{x: x}
+		exp := &c02Exp{x: x, cum: sc.cumExport}
 		opts := []Option{WithReader(delta), WithReader(cum)}
 		var pr *PeriodicReader
 		if sc.periodic {
@@ -293,7 +298,33 @@ func c02Body(sc c02Scn, res *string) func(x *sched.Exec) {
 					}
 				}
 			}
-			check("delta-periodic", exp.colls, must)
+			if !sc.cumExport {
+				check("delta-periodic", exp.colls, must)
+			} else {
+				// cumulative exports, in the order the exporter received them: never a step back, and
+				// the last one holds at least everything recorded before Shutdown was called
+				lastExp := map[string]int64{}
+				for i, pts := range exp.colls {
+					for _, p := range pts {
+						v := int64(p.val) * sign
+						if v < lastExp[p.attr] {
+							x.Fail("C02|cumulative-decreased|periodic exporter", "the periodic reader's exporter received %d for %s after it had received %d (export %d of %v)", v, p.attr, lastExp[p.attr], i, exp.colls)
+						}
+						lastExp[p.attr] = v
+					}
+				}
+				for a, m := range must {
+					miss := false
+					for g, mm := lastExp[a], m; mm > 0; g, mm = g/3, mm/3 {
+						if mm%3 == 1 && g%3 != 1 {
+							miss = true
+						}
+					}
+					if miss {
+						x.Fail("C02|cumulative-total-mismatch|periodic exporter", "the last cumulative value the periodic reader's exporter received for %s is %d; %d had been recorded before the reader's Shutdown was called (exports %v)", a, lastExp[a], m, exp.colls)
+					}
+				}
+			}
 		}
 		// cumulative: last value equals the total, sequence monotone for monotonic inputs
 		last := map[string]int64{}
@@ -397,21 +428,23 @@ func (j c02Job) name() string { return fmt.Sprintf("%s/P%dE%d", j.sc.name, j.p, 
 
 func c02Jobs(thorough bool) []c02Job {
 	A, B := "A", "B"
-	m1 := c02Scn{"M1-int", "int", [][]string{{A, B}, {A, A}}, [][]string{{"D", "D"}}, false, false}
-	m2 := c02Scn{"M2-float", "float", [][]string{{A, B}, {A}}, [][]string{{"D"}, {"C"}}, false, false}
-	m3 := c02Scn{"M3-updown", "updown", [][]string{{A, A}, {A}}, [][]string{{"D", "C"}}, false, false}
-	m4 := c02Scn{"M4-int-2collectors", "int", [][]string{{A, A}}, [][]string{{"D"}, {"D"}}, false, false}
-	p1 := c02Scn{"P1-periodic", "int", [][]string{{A, B}}, [][]string{{"F"}}, true, false}
-	p2 := c02Scn{"P2-periodic", "int", [][]string{{A}, {A}}, [][]string{{"F"}, {"D"}}, true, false}
-	m5 := c02Scn{"M5-int-3recorders", "int", [][]string{{A, B}, {A, A}, {B}}, [][]string{{"D", "D"}, {"C"}}, false, false}
-	p3 := c02Scn{"P3-periodic-float", "float", [][]string{{A, A}, {B}}, [][]string{{"F", "F"}}, true, false}
+	m1 := c02Scn{"M1-int", "int", [][]string{{A, B}, {A, A}}, [][]string{{"D", "D"}}, false, false, false}
+	m2 := c02Scn{"M2-float", "float", [][]string{{A, B}, {A}}, [][]string{{"D"}, {"C"}}, false, false, false}
+	m3 := c02Scn{"M3-updown", "updown", [][]string{{A, A}, {A}}, [][]string{{"D", "C"}}, false, false, false}
+	m4 := c02Scn{"M4-int-2collectors", "int", [][]string{{A, A}}, [][]string{{"D"}, {"D"}}, false, false, false}
+	p1 := c02Scn{"P1-periodic", "int", [][]string{{A, B}}, [][]string{{"F"}}, true, false, false}
+	p2 := c02Scn{"P2-periodic", "int", [][]string{{A}, {A}}, [][]string{{"F"}, {"D"}}, true, false, false}
+	m5 := c02Scn{"M5-int-3recorders", "int", [][]string{{A, B}, {A, A}, {B}}, [][]string{{"D", "D"}, {"C"}}, false, false, false}
+	p3 := c02Scn{"P3-periodic-float", "float", [][]string{{A, A}, {B}}, [][]string{{"F", "F"}}, true, false, false}
 	// two scopes, interval export in flight while Shutdown cancels the run loop's context
-	p4 := c02Scn{"P4-periodic-2scopes-shutdown", "int", [][]string{{A, B}}, [][]string{{"S"}}, true, true}
-	m6 := c02Scn{"M6-int-2scopes", "int", [][]string{{A, B}, {B, A}}, [][]string{{"D", "D"}}, false, true}
+	p4 := c02Scn{"P4-periodic-2scopes-shutdown", "int", [][]string{{A, B}}, [][]string{{"S"}}, true, true, false}
+	// cumulative exporter: an interval export in flight while Shutdown makes its final collection
+	p5 := c02Scn{name: "P5-periodic-cumulative-shutdown", kind: "int", rec: [][]string{{A}, {A}}, collects: [][]string{{"F"}, {"S"}}, periodic: true, cumExport: true}
+	m6 := c02Scn{"M6-int-2scopes", "int", [][]string{{A, B}, {B, A}}, [][]string{{"D", "D"}}, false, true, false}
 	if !thorough {
-		return []c02Job{{m1, 3, 0}, {m2, 3, 0}, {m3, 3, 0}, {m4, 3, 0}, {m6, 2, 0}, {p1, 1, 1}, {p2, 1, 0}, {p2, 0, 1}, {p4, 1, 1}}
+		return []c02Job{{m1, 3, 0}, {m2, 3, 0}, {m3, 3, 0}, {m4, 3, 0}, {m6, 2, 0}, {p1, 1, 1}, {p2, 1, 0}, {p2, 0, 1}, {p4, 1, 1}, {p5, 1, 0}, {p5, 0, 1}}
 	}
-	return []c02Job{{m1, 4, 0}, {m2, 4, 0}, {m3, 4, 0}, {m4, 4, 0}, {m5, 2, 0}, {m5, 3, 0}, {p1, 2, 2}, {p2, 1, 1}, {p2, 2, 0}, {p3, 1, 1}, {p3, 2, 0}, {p4, 2, 1}, {p4, 1, 2}, {m6, 3, 0}}
+	return []c02Job{{m1, 4, 0}, {m2, 4, 0}, {m3, 4, 0}, {m4, 4, 0}, {m5, 2, 0}, {m5, 3, 0}, {p1, 2, 2}, {p2, 1, 1}, {p2, 2, 0}, {p3, 1, 1}, {p3, 2, 0}, {p4, 2, 1}, {p4, 1, 2}, {m6, 3, 0}, {p5, 2, 1}}
 }
 
 // c02SameName: "for every counter and up-down counter ... the sum of the measurements recorded" is
